@@ -498,7 +498,8 @@ pub fn run_case(op: &'static str, n: usize, seed: u64, opts: &Opts) -> Outcome {
                 }
                 out
             } else {
-                let parts: Vec<VBuf> = (0..ratio).map(|_| cx.small(m, ac, asz, asz, 63)).collect();
+                // parts may carry different limb counts (a missing limb counts as zero)
+                let parts: Vec<VBuf> = (0..ratio).map(|_| { let ps = cx.rs.usize_in(1, 5); cx.small(m, ac, ps, ps, 63) }).collect();
                 let mut r = cx.small_out(n, rc, rs_, rcap);
                 for p in &parts {
                     cx.reg_in("part", &p.g);
@@ -809,7 +810,10 @@ pub fn run_case(op: &'static str, n: usize, seed: u64, opts: &Opts) -> Outcome {
             cx.p("mat_size", msz);
             cx.p("limb_offset", limb_offset);
             key += &format!("|{rows}|{cin}|{cout}|{msz}|{limb_offset}");
-            let a = cx.small(n, cin, asz, asz, bits_a);
+            // vmp_apply_dft accepts fewer (right-aligned, missing ones count as zero) or more columns than cols_in
+            let a_cols = if op == "vmp_apply_dft" { cx.rs.usize_in(1, cin + 1) } else { cin };
+            cx.p("a_cols_vmp", a_cols);
+            let a = cx.small(n, a_cols, asz, asz, bits_a);
             let mvals = cx.small(n, rows * cin * cout, msz, msz, bits_m); // flat source of matrix entries
             let mut mat_g = Guarded::new(MatZnx::<Vec<u8>>::bytes_of(n, rows, cin, cout, msz), true);
             {
@@ -844,8 +848,8 @@ pub fn run_case(op: &'static str, n: usize, seed: u64, opts: &Opts) -> Outcome {
                     let mut sw = ScratchWin::new(module.vmp_prepare_tmp_bytes(rows, cin, cout, msz) + 4096);
                     module.vmp_prepare(&mut pmat, &mat, sw.scratch());
                 }
-                let mut ad = DftBuf::new(n, cin, asz, asz);
-                for c in 0..cin {
+                let mut ad = DftBuf::new(n, a_cols, asz, asz);
+                for c in 0..a_cols {
                     module.vec_znx_dft_apply(1, 0, &mut ad.view(), c, &a.rview(), c);
                 }
                 let mut r = cx.dft_out(n, cout, rs_, rcap);
